@@ -31,6 +31,11 @@ package ring
 //@   ensures  ok: err == nil ==> t.numSucceeded == old(t).numSucceeded + 1 && t.numErrors == old(t).numErrors
 //@   ensures  ko: err != nil ==> t.numErrors == old(t).numErrors + 1 && t.numSucceeded == old(t).numSucceeded
 //@   ensures  fixed: t.minSucceeded == old(t).minSucceeded && t.maxErrors == old(t).maxErrors
+//@   # request minimisation: every failure, whatever the error, releases exactly one held-back request (if any is left), and
+//@   # reaching the success threshold aborts all of them
+//@   ensures  released: err != nil && len(old(t).pendingInstances) > 0 ==> len(t.pendingInstances) == len(old(t).pendingInstances) - 1
+//@   ensures  aborted: err == nil && t.numSucceeded >= t.minSucceeded ==> len(t.pendingInstances) == 0
+//@   ensures  waiting: err == nil && t.numSucceeded < t.minSucceeded ==> len(t.pendingInstances) == len(old(t).pendingInstances)
 //@
 //@ func defaultResultTracker.onSucceeded
 //@   property C11
@@ -78,6 +83,10 @@ package ring
 //@   ensures  failure: err != nil ==> get(t.failuresByZone, instance.Zone) == get(old(t).failuresByZone, instance.Zone) + 1
 //@   ensures  nofailure: err == nil ==> same(t.failuresByZone, old(t).failuresByZone)
 //@   ensures  others: forall z string :: z != instance.Zone ==> get(t.waitingByZone, z) == get(old(t).waitingByZone, z) && get(t.failuresByZone, z) == get(old(t).failuresByZone, z)
+//@   # request minimisation: the first failure of a zone, whatever the error, releases exactly one held-back zone (if any);
+//@   # further failures of the same zone release nothing
+//@   ensures  released: err != nil && get(old(t).failuresByZone, instance.Zone) == 0 && len(old(t).pendingZones) > 0 ==> len(t.pendingZones) == len(old(t).pendingZones) - 1
+//@   ensures  not_released: err != nil && get(old(t).failuresByZone, instance.Zone) > 0 ==> len(t.pendingZones) == len(old(t).pendingZones)
 //@
 //@ # ---- in-flight tracker -----------------------------------------------------------------------------------
 //@ func inflightInstanceTracker.allInstancesCompleted
